@@ -679,7 +679,7 @@ impl GlobalTypeEnv {
 pub struct Gensym {
     counter: Cell<i32>,
     /// names the program itself gives to its items: a generated name never is one of them
-    reserved: std::cell::RefCell<std::collections::HashSet<String>>,
+    reserved: std::cell::RefCell<std::collections::BTreeSet<String>>,
 }
 
 impl Gensym {
